@@ -186,9 +186,12 @@ def run(ctx):
         for g in gens_spec:
             margin = " " * rnd.choice([0, 0, 4, 8])          # ACL texts come with the indentation of the source they were written in
             text = "\n" + "".join(margin + ln + "\n" for ln in aclgen.acl_text(g["acl"]))
-            gens.append(genrun.make_generator(g["name"], g["prog"], text, vendor))
+            # now and then one generator of several declines the device
+            if "declines" not in g:
+                g["declines"] = rnd.choice(["supports", "raise"]) if len(gens_spec) > 1 and rnd.random() < 0.12 else None
+            gens.append(genrun.make_generator(g["name"], g["prog"], text, vendor, g["declines"]))
         rec = {"id": "%s-%d" % (tag, len(recs)), "prefix": prefix,
-               "gens": [{"name": g["name"], "prog": g["prog"], "acl": aclgen.judge_view(g["acl"])} for g in gens_spec],
+               "gens": [{"name": g["name"], "prog": g["prog"], "acl": aclgen.judge_view(g["acl"]), "declines": g["declines"] is not None} for g in gens_spec],
                "acl_texts": ["\n".join(aclgen.acl_text(g["acl"])) for g in gens_spec]}
         try:
             res = genrun.old_new(dev, gens)
